@@ -238,3 +238,14 @@ Example C07_no_stricter_premises_hold :
   prune_struct [MinDelta 0; MinNpix 3 2] (compute [7] (AdjGrid [false]) v None [MinDelta 1; MinNpix 2 1])
   = compute [7] (AdjGrid [false]) v None [MinDelta 1; MinNpix 2 1].
 Proof. vm_compute. split; reflexivity. Qed.
+
+(* d.prune() without arguments straight after compute(min_npix, user criteria; min_delta = 0):
+   parameters and structures unchanged (the harness stream "noop_prune_after_compute") *)
+Theorem C07_prune_without_arguments_after_compute :
+  forall shape per vals minv n m user,
+    Forall (fun k => 0 < k) shape -> nodelta user = true ->
+    let cs := MinDelta 0 :: MinNpix n m :: user in
+    prune (0, (n, m)) 0 (0, 1) user (compute shape (AdjGrid per) vals minv cs)
+    = ((0, (n, m)), compute shape (AdjGrid per) vals minv cs).
+Proof. exact prune_call_without_arguments_after_compute. Qed.
+Print Assumptions C07_prune_without_arguments_after_compute.
